@@ -216,6 +216,7 @@ Proof.
   intros re ra objs item. unfold reverse_add.
   apply restoring_bind; [apply restoring_tick_radd | intros _].
   apply restoring_bind_gets. intros c. set (s := c_st c).
+  destruct (existsb (fun ob => is_del (g_status s ob)) objs); [apply restoring_fail|].
   destruct (existsb _ objs) eqn:Echk; [apply restoring_taint_fail|].
   set (R := fun ob => [(LItem ob ra item, CBool false);
                        (if g_bool s (LRemoved ob ra item) then (LRemoved ob ra item, CBool true) else (LAdded ob ra item, CBool false))]
